@@ -32,7 +32,34 @@ impl<'g> Cx<'g> {
                         inner = &p.expr;
                     }
                     if let syn::Expr::Index(ix) = inner {
-                        if matches!(&*ix.index, syn::Expr::Range(_)) {
+                        if let syn::Expr::Range(rg) = &*ix.index {
+                            // a leaf of `let x = match .. { .. => &mut P[lo..hi] }` (see `Cx::range_capture`): yields `hi`
+                            if self.range_capture.is_some() {
+                                if !matches!(rg.limits, syn::RangeLimits::HalfOpen(_)) {
+                                    return self.bail(e.span(), "only half-open ranges are supported for an aliased sub-slice");
+                                }
+                                let base_txt = |x: &syn::Expr| quote::quote!(#x).to_string();
+                                let lo_txt = |x: &Option<Box<syn::Expr>>| x.as_ref().map(|y| quote::quote!(#y).to_string()).unwrap_or_default();
+                                let (cb, cl) = self.range_capture.clone().unwrap();
+                                match &cb {
+                                    None => {
+                                        self.range_capture = Some((Some((*ix.expr).clone()), rg.start.as_ref().map(|x| (**x).clone())));
+                                    }
+                                    Some(b) => {
+                                        let same = base_txt(b) == base_txt(&ix.expr) && lo_txt(&cl.map(Box::new)) == lo_txt(&rg.start);
+                                        if !same {
+                                            return self.bail(e.span(), "the branches alias different sub-slices");
+                                        }
+                                    }
+                                }
+                                return match &rg.end {
+                                    Some(h) => self.expr(h, Some(&Ty::usize()), stmts),
+                                    None => {
+                                        let (b, _) = self.expr(&ix.expr, None, stmts)?;
+                                        Ok((format!("(RustSem.len {})", b), Ty::usize()))
+                                    }
+                                };
+                            }
                             return self.expr(inner, exp, stmts);
                         }
                     }
@@ -272,6 +299,14 @@ impl<'g> Cx<'g> {
                 }
             }
             return self.bail(span, format!("unknown identifier `{}` (not a local, a selected constant, a unit struct or an enum variant)", n));
+        }
+        // `io::ErrorKind::X` (the kinds translated code distinguishes; every other kind is `Other`)
+        if segs.len() >= 2 && segs[segs.len() - 2] == "ErrorKind" {
+            let k = segs[segs.len() - 1].as_str();
+            return match k {
+                "WouldBlock" | "Interrupted" | "ConnectionReset" => Ok((format!("RustSem.ErrorKind.{}", k), Ty::Opaque("RustSem.ErrorKind".into()))),
+                _ => self.bail(span, format!("`io::ErrorKind::{}` is not modelled (only WouldBlock, Interrupted, ConnectionReset)", k)),
+            };
         }
         if segs.len() == 2 && segs[0] == "Duration" && segs[1] == "MAX" {
             return Ok(("RustSem.Duration.MAX".into(), Ty::Dur));
@@ -1234,6 +1269,10 @@ impl<'g> Cx<'g> {
         let segs = path_strs(p);
         let args: Vec<&syn::Expr> = c.args.iter().collect();
         let last = segs.last().unwrap().as_str();
+        // a call of a local closure: its body, inlined
+        if let Some(blk) = self.closure_call_block(whole) {
+            return self.expr(&blk, exp, stmts);
+        }
         // an external source of randomness: an explicit parameter of the generated fn
         if args.is_empty()
             && crate::manifest::RANDOM_SOURCES.iter().any(|(_, n)| *n == last)
@@ -1624,6 +1663,26 @@ impl<'g> Cx<'g> {
                 stmts.extend(probe);
                 return Ok((r, rt.clone()));
             }
+            // `x.into()` to another translated type: a selected `impl From<Src> for Dst`
+            if name == "into" && m.args.is_empty() && !self.g.fns.contains_key(&(Some(n.clone()), "into".to_string())) {
+                if let Some(Ty::Named(dst)) = exp {
+                    if dst == n {
+                        stmts.extend(probe);
+                        return Ok((r, rt.clone()));
+                    }
+                    if let Some((_, _, key)) = self.g.from_impls.iter().find(|(s0, d0, _)| s0 == n && d0 == dst) {
+                        let f = self.g.fns.get(key).unwrap()[0].clone();
+                        if f.order >= self.order {
+                            return self.bail(whole.span(), "the `From` impl used by `.into()` must be emitted before its use: fix the manifest order");
+                        }
+                        stmts.extend(probe);
+                        let t = self.fresh();
+                        stmts.push(Stmt::Bind(t.clone(), Doc::atom(format!("Exec.call ({} {})", self.fn_lean_name(&f), r))));
+                        return Ok((t, Ty::Named(dst.clone())));
+                    }
+                    return self.bail(whole.span(), format!("`.into()` needs `impl From<{}> for {}`, which is not a selected item", n, dst));
+                }
+            }
             self.tmp_reset(saved);
             return self.bind_call(whole, stmts);
         }
@@ -1877,6 +1936,39 @@ impl<'g> Cx<'g> {
                 Ty::Opt(inner) => Ok((format!("(List.filterMap (fun x => x) {})", r), Ty::List(inner.clone(), ListKind::Iter))),
                 _ => self.bail(whole.span(), "`flatten` is only supported on an iterator over `Option`s"),
             },
+            // `x.into()` through a selected `impl From<Src> for Dst` (the target type is known from the context)
+            (Ty::Named(_) | Ty::Opaque(_), "into", 0) if matches!(exp, Some(Ty::Named(_))) => {
+                let dst = match exp {
+                    Some(Ty::Named(d)) => d.clone(),
+                    _ => unreachable!(),
+                };
+                let src = match &rt {
+                    Ty::Named(a) => a.clone(),
+                    Ty::Opaque(a) => crate::manifest::OPAQUE_TYPES
+                        .iter()
+                        .find(|(_, lean)| *lean == a.as_str())
+                        .and_then(|(pat, _)| pat.last().map(|x| x.to_string()))
+                        .unwrap_or_else(|| a.rsplit('.').next().unwrap_or(a).to_string()),
+                    _ => unreachable!(),
+                };
+                if src == dst {
+                    return Ok((r, rt.clone()));
+                }
+                match self.g.from_impls.iter().find(|(s0, d0, _)| *s0 == src && *d0 == dst) {
+                    Some((_, _, key)) => {
+                        let f = self.g.fns.get(key).unwrap()[0].clone();
+                        if f.order >= self.order {
+                            return self.bail(whole.span(), "the `From` impl used by `.into()` must be emitted before its use: fix the manifest order");
+                        }
+                        let t = self.fresh();
+                        stmts.push(Stmt::Bind(t.clone(), Doc::atom(format!("Exec.call ({} {})", self.fn_lean_name(&f), r))));
+                        Ok((t, Ty::Named(dst)))
+                    }
+                    None => self.bail(whole.span(), format!("`.into()` needs `impl From<{}> for {}`, which is not a selected item", src, dst)),
+                }
+            }
+            // `io::Error::kind()`
+            (Ty::Opaque(o), "kind", 0) if o == "RustSem.IoError" => Ok((format!("(RustSem.IoError.kind {})", r), Ty::Opaque("RustSem.ErrorKind".into()))),
             // std::net
             (Ty::Opaque(o), "port", 0) if o == "RustSem.SocketAddr" || o == "RustSem.SocketAddrV4" || o == "RustSem.SocketAddrV6" => {
                 Ok((format!("(RustSem.SocketAddr.port {})", r), Ty::Int(16)))
@@ -1957,6 +2049,13 @@ impl<'g> Cx<'g> {
                 let v = self.fresh();
                 let site = self.site(whole);
                 stmts.push(Stmt::Bind(v.clone(), Doc::atom(format!("RustSem.unwrap {} {}", r, site))));
+                Ok((v, (**t).clone()))
+            }
+            // `result.unwrap()`: the `Ok` value, panic on `Err`
+            (Ty::Res(t, _), "unwrap", 0) => {
+                let v = self.fresh();
+                let site = self.site(whole);
+                stmts.push(Stmt::Bind(v.clone(), Doc::atom(format!("RustSem.unwrap_ok {} {}", r, site))));
                 Ok((v, (**t).clone()))
             }
             _ => self.bail(whole.span(), format!("unsupported method `{}` on this receiver", name)),
